@@ -20,7 +20,7 @@ func init() {
 		Run:      runC20,
 		Explanation: "Decides, from source: (R1) the accepted tenant-id alphabet exactly: the contents of validTenantIdChars are computed by constant-folding the init() loops and must be a subset of the documented safe set and contain none of the tenant-list separator, the metadata separators, path separators, NUL, space, control or high bytes; MaxTenantIDLength = 150; " +
 			"(R2) ValidTenantID accepts ⇔ every byte of the string is in the table (byte-indexed loop over 0..len) ∧ len ≤ max ∧ not '.'/'..' (8-row table after the loop); (R3) every successful return of the resolver entry points returns a value on which ValidTenantID returned nil on that path, metadata trimmed before validation and comparison in both resolvers, the multi-tenant result normalised after trimming; " +
-			"(R5) transport: HTTP get/set use the same header constant, the gRPC key is its lower-casing, inject/extract use the same context key, values are forwarded unchanged (identity flow); (R6) no default tenant: the next handler/invoker is reachable only when extraction/injection returned no error, injection into the context only for a non-empty single value. NOT decided: net/http header canonicalisation and gRPC metadata semantics (trusted libraries).",
+			"(R5) transport: HTTP get/set use the same header constant, the gRPC key is its lower-casing, inject/extract use the same context key, values are forwarded unchanged (identity flow); (R6) no default tenant: the next handler/invoker is reachable only when extraction/injection returned no error, injection into the context only for a non-empty single value. R6 also requires every extractor to have no reachable success return when the identifier is absent, whatever else it tests. NOT decided: net/http header canonicalisation and gRPC metadata semantics (trusted libraries).",
 	}
 }
 
@@ -155,7 +155,7 @@ func runC20(c *core.Ctx) {
 	c.Rule("R2", "ValidTenantID accepts ⇔ all bytes valid ∧ len ≤ max ∧ not '.'/'..'", 2)
 	c.Rule("R3", "resolver entry points return only validated, metadata-trimmed, normalised identifiers", 5)
 	c.Rule("R5", "transport: same header/context keys on both sides, values forwarded unchanged", 6)
-	c.Rule("R6", "no default tenant: handlers reachable only after successful extraction", 6)
+	c.Rule("R6", "no default tenant: handlers reachable only after successful extraction; extraction fails when the identifier is absent", 8)
 	tp := c.Prog.Pkg("tenant")
 	up := c.Prog.Pkg("user")
 	mp := c.Prog.Pkg("middleware")
@@ -314,7 +314,9 @@ func c20Valid(c *core.Ctx, tp *packages.Package) {
 	t := an.Table{G: g, From: an.Loc{B: done, I: 0}, FreeUnknown: true,
 		Atoms:   []an.Atom{{Name: "len", Values: []string{"lt", "eq", "gt"}}, {Name: "dot", Values: []string{"T", "F"}}, {Name: "dotdot", Values: []string{"T", "F"}}},
 		Binder:  &an.Binder{Fn: fn, Cmp: map[string]string{"len(p0)|MaxTenantIDLength": "len"}, Eq: map[string]string{`p0|"."`: "dot", `p0|".."`: "dotdot"}},
-		Targets: nilRets, Want: func(r an.Row, _ int) an.Tri { return an.FromBool(r["len"] != "gt" && r["dot"] == "F" && r["dotdot"] == "F") }}
+		Targets: nilRets, Want: func(r an.Row, _ int) an.Tri {
+			return an.FromBool(r["len"] != "gt" && r["dot"] == "F" && r["dotdot"] == "F")
+		}}
 	res := t.Run()
 	c.Check(res.OK(), "R2", "func=ValidTenantID:tail", fn.Pos(), "accepts ⇔ len ≤ MaxTenantIDLength ∧ s ≠ \".\" ∧ s ≠ \"..\": "+res.Summary(), res.Rows)
 }
@@ -502,6 +504,7 @@ func c20Transport(c *core.Ctx, up, mp *packages.Package) {
 			res := t.Run()
 			c.Check(res.OK(), "R6", "func=user.ExtractOrgIDFromHTTPRequest", f.Pos(), "an org id is injected only when the header is non-empty (otherwise ErrNoOrgID): "+res.Summary(), res.Rows)
 		}
+		c20Rejects(c, f, &an.Binder{Fn: f, Eq: map[string]string{`p0.Header.Get(OrgIDHeaderName)|""`: "absent"}}, "the header is empty")
 	}
 	if f := get("InjectOrgIDIntoHTTPRequest"); f != nil {
 		ok := false
@@ -525,6 +528,7 @@ func c20Transport(c *core.Ctx, up, mp *packages.Package) {
 			res := t.Run()
 			c.Check(res.OK(), "R6", "func=user.ExtractFromGRPCRequest", f.Pos(), "an org id is injected only when exactly one value is present: "+res.Summary(), res.Rows)
 		}
+		c20Rejects(c, f, &an.Binder{Fn: f, Cmp: map[string]string{"len(" + src + ")|1": "n"}}, "not exactly one metadata value is present")
 	}
 	if f := get("InjectIntoGRPCRequest"); f != nil {
 		ok := false
@@ -604,4 +608,30 @@ func c20Transport(c *core.Ctx, up, mp *packages.Package) {
 			c.Undec("R6", "func=middleware."+m.fn, f.Pos(), "extraction call and next-handler call not found")
 		}
 	}
+}
+
+// c20Rejects: when the identifier is absent (binder atom "absent"=T, or "n"≠eq) no return with a nil
+// error is reachable, whatever else the function tests: a request without an org id is rejected, never
+// given one from somewhere else.
+func c20Rejects(c *core.Ctx, f *an.Fn, bd *an.Binder, when string) {
+	g := f.Graph()
+	var okRets []an.Loc
+	for _, b := range g.Blocks {
+		if r := an.ReturnOf(b); r != nil && len(r.Results) > 0 && f.Canon(r.Results[len(r.Results)-1]) == "nil" {
+			okRets = append(okRets, g.Locate(r))
+		}
+	}
+	atoms := []an.Atom{{Name: "absent", Values: []string{"T", "F"}}}
+	if bd.Cmp != nil {
+		atoms = []an.Atom{{Name: "n", Values: []string{"lt", "eq", "gt"}}}
+	}
+	t := an.Table{G: g, From: g.EntryLoc(), MayOnly: true, FreeUnknown: true, Atoms: atoms, Binder: bd, Targets: okRets,
+		Want: func(r an.Row, _ int) an.Tri {
+			if r["absent"] == "T" || (r["n"] != "" && r["n"] != "eq") {
+				return an.F
+			}
+			return an.U
+		}}
+	res := t.Run()
+	c.Check(res.OK() && len(okRets) > 0, "R6", "func=user."+f.Name+":reject", f.Pos(), fmt.Sprintf("when %s no successful return is reachable (%d success returns): %s", when, len(okRets), res.Summary()), res.Rows)
 }
